@@ -1,9 +1,144 @@
 import StraxModel.Driver.Parse
+import StraxModel.Model.MultiRun
 namespace Strax.Driver
-open Strax
+open Strax Strax.MultiRun
 
-/-- ops of property C15 (stub: no ops yet) -/
+namespace C15
+
+def parseErr (s : String) : Option Err :=
+  [Err.valueError, .runtimeError, .typeError, .keyError, .dataNotAvailable, .dataCorrupted,
+   .osError, .assertionError, .notImplemented, .other].find? (·.name == s)
+
+def plusNats (s : String) : Option (List Nat) :=
+  if s.isEmpty then some [] else (s.splitOn "+").mapM (·.toNat?)
+
+/-- `run/Kind` (raises), `run/1+2+3` (rows), `run/` (no rows) -/
+def parseResult (tok : String) : Option (Nat × Except Err Rows) :=
+  match tok.splitOn "/" with
+  | [r, v] => do
+    let r ← r.toNat?
+    match parseErr v with
+    | some e => pure (r, .error e)
+    | none => pure (r, .ok (← plusNats v))
+  | _ => none
+
+def resultsFn (tbl : List (Nat × Except Err Rows)) (r : Nat) : Except Err Rows :=
+  match tbl.find? (·.1 == r) with
+  | some (_, v) => v
+  | none => .ok []
+
+def showRowsPlus (l : List Nat) : String := if l.isEmpty then "-" else "+".intercalate (l.map toString)
+
+/-- a result array with its run_id column; an empty array shows no run id -/
+def showEntry (e : Nat × Rows) : String :=
+  if e.2.isEmpty then "_:-" else s!"{e.1}:{showRowsPlus e.2}"
+
+def showEntries (l : List (Nat × Rows)) : String :=
+  if l.isEmpty then "-" else ",".intercalate (l.map showEntry)
+
+def parseKey (s : String) : Option Key :=
+  if s.startsWith "p" then (s.drop 1).toNat?.map Key.plugin
+  else if s.startsWith "t" then (s.drop 1).toNat?.map Key.temp
+  else none
+
+def showKey : Key → String
+  | .plugin n => s!"p{n}"
+  | .temp k => s!"t{k}"
+
+def showKeys (l : List Key) : String := if l.isEmpty then "-" else "+".intercalate (l.map showKey)
+
+def parseAct (s : String) : Option Act :=
+  let rest := (s.drop 1).toString
+  match s.front with
+  | 'L' => (parseKey rest).map Act.lookup
+  | 'S' => match rest.splitOn "/" with
+    | [k, c] => do pure (.setKey (← parseKey k) (← c.toNat?))
+    | _ => none
+  | 'I' => rest.toNat?.map Act.iterBegin
+  | 'N' => rest.toNat?.map Act.iterNext
+  | 'C' => (parseKey rest).map Act.contains
+  | 'G' => (parseKey rest).map Act.getKey
+  | 'K' => if rest.isEmpty then some .snapshot else none
+  | 'D' => (parseKey rest).map Act.delKey
+  | 'R' => if rest.isEmpty then some .cacheRead else none
+  | 'W' => (parseBool rest).map Act.cacheWrite
+  | _ => none
+
+def showRes : Res → String
+  | .unit => "u"
+  | .bool b => if b then "b1" else "b0"
+  | .cls none => "c-"
+  | .cls (some c) => s!"c{c}"
+  | .item k => s!"i{showKey k}"
+  | .stop => "s"
+  | .keys l => s!"k{showKeys l}"
+  | .err e => s!"e{e.name}"
+  | .unspecified => "?"
+
+def parseInstr (s : String) : Option Instr :=
+  let rest := (s.drop 1).toString
+  match s.front with
+  | 'H' => if rest.isEmpty then some .contextHash else none
+  | 'R' => rest.toNat?.map Instr.registerTemp
+  | 'X' => rest.toNat?.map Instr.resolve
+  | 'C' => if rest.isEmpty then some .cacheLookup else none
+  | 'D' => if rest.isEmpty then some .deleteAllTemp else none
+  | _ => none
+
+def parseProg (s : String) : Option (List Instr) := (splitList s ".").mapM parseInstr
+
+def showThread (t : Thread) : String :=
+  match t.failed with
+  | some e => s!"err:{e.name}"
+  | none => if t.prog.isEmpty then "done" else s!"run:{t.prog.length}"
+
+def showSys (sys : Sys) : String :=
+  let ts := " ".intercalate (sys.threads.map showThread)
+  s!"{ts} reg={showKeys (regKeys sys.shared.reg)} cache={if sys.shared.cacheSet then 1 else 0}"
+
+end C15
+
+open C15 in
+/-- ops of property C15 (theory T12) -/
 def handleC15 : List String → Option String
+  | ["c15.mr", runs, order, results, ignore, throw, workers] => do
+    let runs ← parseNats runs; let order ← parseNats order
+    let tbl ← (splitList results ",").mapM parseResult
+    let ig ← parseBool ignore; let th ← parseBool throw; let w ← workers.toNat?
+    match multiRunFull ⟨order, resultsFn tbl, ig, th, w⟩ runs with
+    | .error (e, sub) => pure s!"err {e.name} sub={showNats sub}"
+    | .ok (none, sub) => pure s!"ok none sub={showNats sub}"
+    | .ok (some r, sub) => pure s!"ok {showEntries r} sub={showNats sub}"
+  | ["c15.seq", runs, results] => do
+    let runs ← parseNats runs
+    let tbl ← (splitList results ",").mapM parseResult
+    pure s!"ok {showEntries (sequential runs (resultsFn tbl))}"
+  | "c15.replay" :: cacheSet :: dicts => do
+    -- one token `n:acts` per traced dict (dict 0 = the plugin registry, which also carries the
+    -- reads / writes of the `_fixed_plugin_cache` attribute; the others = inner plugin-cache dicts)
+    let c ← parseBool cacheSet
+    let outs ← dicts.mapM fun tok => do
+      match tok.splitOn ":" with
+      | [n, acts] =>
+        let n ← n.toNat?
+        let acts ← (splitList acts ",").mapM parseAct
+        let s0 : Shared := ⟨baseRegistry n, c, 0⟩
+        let res := replay s0 [] acts
+        let fin := finalShared s0 [] acts
+        let rs := if res.isEmpty then "-" else ",".intercalate (res.map showRes)
+        pure s!"{rs} reg={showKeys (regKeys fin.reg)} cache={if fin.cacheSet then 1 else 0}"
+      | _ => none
+    pure ("ok " ++ " | ".intercalate outs)
+  | ["c15.sched", nPlugins, cacheSet, progs, schedule] => do
+    let n ← nPlugins.toNat?; let c ← parseBool cacheSet
+    let progs ← (progs.splitOn "/").mapM parseProg
+    let sch ← parseNats schedule
+    pure s!"ok {showSys ((Sys.init n c progs).run sch)}"
+  | ["c15.blocks", nPlugins, cacheSet, progs, schedule] => do
+    let n ← nPlugins.toNat?; let c ← parseBool cacheSet
+    let progs ← (progs.splitOn "/").mapM parseProg
+    let sch ← parseNats schedule
+    pure s!"ok {showSys ((Sys.init n c progs).runBlocks sch)}"
   | _ => none
 
 end Strax.Driver
